@@ -58,7 +58,7 @@ def run(tier):
     d2 = vlib.drv_stats(vlib.run_driver(drv, ["coalesce", "rand", "-n", str(T["rand_n"]), "-len", str(T["rand_len"]), "-out", tr, "-shards", sh]))
     d3 = vlib.drv_stats(vlib.run_driver(drv, ["coalesce", "conc", "-n", str(T["conc_n"]), "-out", tr, "-shards", sh]))
     # bounded exhaustive enumeration of schedules on the real queue (gate scheduler at the call boundaries and the three hook points)
-    d4 = vlib.drv_stats(vlib.run_driver(drv, ["coalesce", "enum", "-out", tr, "-shards", sh] + (["-big", "-max", "60000"] if tier == "thorough" else []), timeout=3000))
+    d4 = vlib.drv_stats(vlib.run_driver(drv, ["coalesce", "enum", "-out", tr, "-shards", sh] + (["-big", "-max", "20000"] if tier == "thorough" else []), timeout=3000))
     lin_files = sorted(os.path.join(tr, f) for f in os.listdir(tr) if f.startswith(("seq-", "rand-")))
     conc_files = sorted(os.path.join(tr, f) for f in os.listdir(tr) if f.startswith(("conc-", "enum-")))
 
